@@ -283,6 +283,7 @@ func (g *Generator) convertEnumField(field *protogen.Field) *base.SchemaProxy {
 		}
 		schema.Enum = append(schema.Enum, &yaml.Node{
 			Kind:  yaml.ScalarNode,
+			Tag:   "!!str",
 			Value: enumValue,
 		})
 	}
